@@ -67,7 +67,7 @@ def abstract_asset_problem(H, k, T, with_rows, with_dispf, name):
 class PortfolioSetup(Contract):
     qualname = 'portfolio:Portfolio.setup_optim_problem'
     prefix = 'C07.asm'
-    properties = ('C07', 'C09', 'C01', 'C04', 'C17', 'C10', 'C08', 'C15')
+    properties = ('C07', 'C09', 'C01', 'C04', 'C17', 'C10', 'C08', 'C15', 'C18')
 
     def cases(self):
         out = [dict(assets=1, rows='1', dispf='0', costs_only=False),
@@ -76,7 +76,8 @@ class PortfolioSetup(Contract):
                dict(assets=2, rows='00', dispf='11', costs_only=False),
                dict(assets=3, rows='101', dispf='010', costs_only=False),
                dict(assets=2, rows='10', dispf='01', costs_only=True),
-               dict(assets=2, rows='10', dispf='01', costs_only=False, fix='mask')]
+               dict(assets=2, rows='10', dispf='01', costs_only=False, fix='mask'),
+               dict(assets=3, rows='111', dispf='010', costs_only=False, inner='101')]
         return out
 
     def harness(self, H, case):
@@ -91,6 +92,10 @@ class PortfolioSetup(Contract):
         for i in range(k):
             F = abstract_asset_problem(H, i, T, case['rows'][i] == '1', case['dispf'][i] == '1', names[i])
             a = Obj('Asset', name=names[i])
+            if case.get('inner', '0' * k)[i] == '1':
+                # a structured asset: its problem brings the record of its own (internal) nodal rows along
+                F['inner'] = Obj('list', __token__=f'map_nodal_restr of asset {i}')
+                F['op'].set('map_nodal_restr', F['inner'])
             a.attrs['__F__'] = F
             assets.append(a)
             Fs.append(F)
@@ -257,7 +262,12 @@ class PortfolioSetup(Contract):
             del sym.SCOPE[-2:]
         yield ('C01.asm.nodal_block', z3.ForAll([r, j], z3.Implies(z3.And(rN, jr), body)))
         yield ('C01.asm.nodal_rhs', z3.ForAll([r], z3.Implies(rN, z3.And(lift(bf(M + r)) == 0, lift(S.char_at(ct, M + r)) == sym.strlit('N')))))
-        yield ('C18.rowmap.passed_through', res.get('map_nodal_restr') is nr['expl'])
+        # C18: the record lists ALL rows of type N in row order: those the assets bring along (asset order), then the
+        # portfolio's own (as returned by create_nodal_restr)
+        want = [F['inner'] for F in Fs if F.get('inner') is not None] + [nr['expl']]
+        got = res.get('map_nodal_restr')
+        got_parts = got.get('__parts__') if isinstance(got, Obj) and got.has('__parts__') else [got]
+        yield ('C18.rowmap.lists_all_nodal_rows_in_row_order', len(got_parts) == len(want) and all(a is b for a, b in zip(got_parts, want)))
         # the nested function receives the assembled mapping columns and all nodes of the portfolio
         na = ctx.get('nodal_args')
         yield ('C01.asm.nodal_call', na is not None and len(na) == 9 and list(na[0]) == ctx['node_names'] and na[7] is None)
